@@ -121,7 +121,7 @@ class Oracle:
                 for a, b in ref:
                     cls = cls or key_class(a)
                 if cls is None and any(len(a) >= 67 for a, b in ref): cls = "key-of-67-or-more-characters"
-                bad.append(("fits:%s:%s" % (out[2:], cls or "other"), "round trip failed (%s) with the accepted entries %r" % (out, ref)))
+                bad.append((("fits-roundtrip:" + cls) if cls and cls != "key-of-67-or-more-characters" else "fits:%s:%s" % (out[2:], cls or "other"), "round trip failed (%s) with the accepted entries %r" % (out, ref)))
             else:
                 why = None
                 if len(store) != len(ref):
@@ -137,7 +137,8 @@ class Oracle:
                 if why:
                     cls = None
                     for a, b in ref: cls = cls or key_class(a)
-                    sig = "fits:%s:%s" % (why[0], cls or ("long-key" if why[1] is not None and len(why[1]) > 8 else "short-key"))
+                    if cls is None and any(not (32 <= ord(ch) < 127) for a, b in ref for ch in b): cls = "control-character-in-value"
+                    sig = ("fits-roundtrip:" + cls) if cls else "fits:%s:%s" % (why[0], "long-key" if why[1] is not None and len(why[1]) > 8 else "short-key")
                     bad.append((sig, "accepted entries do not survive the FITS round trip: %s; before %r, after %r" % (why[2], ref, store)))
             self.ref = store
         return bad
